@@ -558,7 +558,32 @@ pub fn api_strategy(max_ops: usize) -> BoxedStrategy<ApiCase> {
             ops.extend(tail);
             ApiCase { texts: vec![text], ops, dialect }
         });
-    prop_oneof![4 => free, 1 => relint].boxed()
+    // the same misspelling in two capitalisations, in two texts checked by one Linter: whatever the
+    // Linter remembers about the first must not leak into what is ignored, exported and rebuilt
+    let recased = (
+        g::sel_str(&["teh", "freind", "wrod", "pythn", "recieve", "seperate"]),
+        any::<bool>(),
+        0u8..4,
+        proptest::collection::vec(op(), 0..4),
+    )
+        .prop_map(|(w, markdown, dialect, tail)| {
+            let cap: String = {
+                let mut c = w.chars();
+                c.next().map(|f| f.to_uppercase().collect::<String>() + c.as_str()).unwrap_or_default()
+            };
+            let texts = vec![format!("I saw the {w} there."), format!("{cap} dog barked at the {} gate.", w.to_uppercase())];
+            let mut ops = vec![
+                Op::Lint { text: 0, markdown },
+                Op::Lint { text: u16::MAX, markdown },
+                Op::Ignore { lint: 0 },
+                Op::Lint { text: u16::MAX, markdown },
+                Op::RebuildFromExports,
+                Op::Lint { text: u16::MAX, markdown },
+            ];
+            ops.extend(tail);
+            ApiCase { texts, ops, dialect }
+        });
+    prop_oneof![8 => free, 2 => relint, 1 => recased].boxed()
 }
 
 pub fn run(run: &mut Run) {
